@@ -12,6 +12,7 @@ everything runs in the scope the expression starts in; at top level that is the 
 * `segment_Fv` — the segment lemma, by induction on the reference evaluator's fuel.
 -/
 import ZygoVerif.Proofs.SimGlue
+import ZygoVerif.Proofs.SimBind
 import ZygoVerif.Proofs.SimF0c
 set_option linter.unusedSimpArgs false
 namespace ZygoVerif.Sim
@@ -29,7 +30,8 @@ def Fv : Expr → Bool
   | .and_ es => FvList es
   | .or_ es => FvList es
   | .newScope es => !es.isEmpty && FvList es
-  | .let_ seq bs body => seq && !body.isEmpty && FvBinds bs && FvList body
+  | .let_ seq bs body =>
+    (seq || decide ((bs.map (·.1)).Nodup)) && !body.isEmpty && FvBinds bs && FvList body
   | _ => false
 def FvList : List Expr → Bool
   | [] => true
@@ -129,6 +131,22 @@ def VClaimL (n : Nat) : Prop :=
   ∀ bs, FvBinds bs = true → ∀ isFn c gs r, (compileBinds isFn c true bs).run gs = .ok r →
     ∀ s rs env pre post, Rel s rs env → Seg s pre r.1.1 post → SimU r.1.1 s rs env (Ref.evalLetSeq n bs env rs)
 
+/-- the same for code that pushes a list of values, first value deepest (the initialisers of `let`) -/
+def SimL (code : List Instr) (s : St) (rs : Ref.St) (env : Nat) (res : Ref.R (List Val)) : Prop :=
+  match res with
+  | .ok vs rs' => ∃ s', Reach code.length 1 s s' ∧ fnOf s' s'.curfunc = fnOf s s.curfunc
+      ∧ s'.pc = s.pc + (code.length : Int) ∧ s'.data = vs.reverse.map some ++ s.data
+      ∧ Rel s' rs' env ∧ FramesExt rs rs'
+  | .err rs' => Fails code.length s rs'.trace
+  | .timeout => True
+  | .brk _ _ => False
+  | .cont _ _ => False
+
+def VClaimP (n : Nat) : Prop :=
+  ∀ bs, FvBinds bs = true → ∀ isFn c gs r, (compileBinds isFn c false bs).run gs = .ok r →
+    ∀ s rs env pre post, Rel s rs env → Seg s pre r.1.1 post →
+      SimL r.1.1 s rs env (Ref.evalList n (bs.map (·.2)) env rs)
+
 /-- a literal -/
 theorem sim_push {s : St} {rs : Ref.St} {env : Nat} {pre post : List Instr} (v : Val)
     (hrel : Rel s rs env) (h : Seg s pre [.push v] post) : Sim [.push v] s rs env (.ok v rs) :=
@@ -211,12 +229,12 @@ theorem compile_total_Fv : ∀ (e : Expr), Fv e = true → ∀ isFn c gs,
   | .let_ seq bs body, he, isFn, c, gs => by
     rw [Fv] at he
     simp only [Bool.and_eq_true, Bool.not_eq_true', List.isEmpty_eq_false_iff] at he
-    obtain ⟨⟨⟨hseq, hbody⟩, hbs⟩, hbl⟩ := he
-    subst hseq
-    obtain ⟨rhs, t1, h1⟩ := compileBinds_total_Fv bs hbs isFn { c with scopes := c.scopes + 1 } gs
+    obtain ⟨⟨⟨_, hbody⟩, hbs⟩, hbl⟩ := he
+    obtain ⟨rhs, t1, h1⟩ := compileBinds_total_Fv bs hbs isFn { c with scopes := c.scopes + 1 } seq gs
     obtain ⟨b, t2, h2, _⟩ := compileBegin_total_Fv body hbody hbl isFn
       { tail := t1, scopes := c.scopes + 1, funcname := c.funcname, known := c.known } gs
-    refine ⟨[.addScope] ++ rhs ++ [] ++ b ++ [.removeScope], t2, ?_, by simp⟩
+    refine ⟨[.addScope] ++ rhs ++ (if seq then [] else (bs.map (fun p => Instr.popStackPutEnv p.1)).reverse)
+      ++ b ++ [.removeScope], t2, ?_, by simp⟩
     rw [compile]
     simp only [g_bind_ok, g_pure_ok]
     exact ⟨_, _, h1, _, _, h2, rfl⟩
@@ -285,15 +303,15 @@ theorem compileNewScope_total_Fv : ∀ (es : List Expr), es ≠ [] → FvList es
     · simp only [g_bind_ok, g_pure_ok]
       exact ⟨_, _, ha, _, _, hb, rfl⟩
     · intro hh; cases hh
-theorem compileBinds_total_Fv : ∀ (bs : List (String × Expr)), FvBinds bs = true → ∀ isFn c gs,
-    ∃ code t, (compileBinds isFn c true bs).run gs = .ok ((code, t), gs)
-  | [], _, isFn, c, gs => ⟨[], c.tail, by rw [compileBinds]; rfl⟩
-  | (x, e) :: bs, he, isFn, c, gs => by
+theorem compileBinds_total_Fv : ∀ (bs : List (String × Expr)), FvBinds bs = true → ∀ isFn c seq gs,
+    ∃ code t, (compileBinds isFn c seq bs).run gs = .ok ((code, t), gs)
+  | [], _, isFn, c, seq, gs => ⟨[], c.tail, by rw [compileBinds]; rfl⟩
+  | (x, e) :: bs, he, isFn, c, seq, gs => by
     rw [FvBinds] at he
     simp only [Bool.and_eq_true] at he
     obtain ⟨a, ta, ha, _⟩ := compile_total_Fv e he.1 isFn c gs
-    obtain ⟨b, tb, hb⟩ := compileBinds_total_Fv bs he.2 isFn { c with tail := ta } gs
-    refine ⟨a ++ [.popStackPutEnv x] ++ b, tb, ?_⟩
+    obtain ⟨b, tb, hb⟩ := compileBinds_total_Fv bs he.2 isFn { c with tail := ta } seq gs
+    refine ⟨a ++ (if seq then [.popStackPutEnv x] else []) ++ b, tb, ?_⟩
     rw [compileBinds]
     simp only [g_bind_ok, g_pure_ok]
     exact ⟨_, _, ha, _, _, hb, rfl⟩
@@ -575,6 +593,99 @@ theorem Seg.inner {inner pre post : List Instr} {s : St}
     Seg s.pushScope (pre ++ [.addScope]) inner ([.removeScope] ++ post) :=
   h.moved (glue_addScope h).2 (c₁ := [.addScope]) (c₂ := inner) (post' := [.removeScope] ++ post) (by simp) rfl
 
+/-! ## The parallel bindings of `let` -/
+
+theorem ref_define_trace {rs rs' : Ref.St} {fr : Nat} {x : String} {v : Val}
+    (h : Ref.define rs fr x v = some rs') : rs'.trace = rs.trace := by
+  have hs : (Ref.setVar rs fr x v).trace = rs.trace := by
+    unfold Ref.setVar; cases rs.frames[fr]? <;> rfl
+  unfold Ref.define at h
+  cases hf : rs.frames[fr]? with
+  | none => rw [hf] at h; cases h
+  | some f =>
+    rw [hf] at h
+    simp only at h
+    cases hl : f.vars.lookup x with
+    | none => rw [hl] at h; simp only [Option.some.injEq] at h; rw [← h]; exact hs
+    | some cur =>
+      rw [hl] at h
+      simp only at h
+      split at h
+      · simp only [Option.some.injEq] at h; rw [← h]; exact hs
+      · cases h
+
+theorem ref_evalList_length : ∀ (n : Nat) (es : List Expr) (env : Nat) (rs : Ref.St) (vs : List Val) (rs' : Ref.St),
+    Ref.evalList n es env rs = .ok vs rs' → vs.length = es.length
+  | 0, es, env, rs, vs, rs', h => by rw [Ref.evalList] at h; cases h
+  | n + 1, [], env, rs, vs, rs', h => by
+    rw [Ref.evalList] at h
+    · injection h with h1 _; subst h1; rfl
+    · omega
+  | n + 1, e :: es, env, rs, vs, rs', h => by
+    rw [Ref.evalList] at h
+    cases h1 : Ref.eval n e env rs with
+    | ok v rs1 =>
+      rw [h1] at h
+      simp only at h
+      cases h2 : Ref.evalList n es env rs1 with
+      | ok vs2 rs2 =>
+        rw [h2] at h
+        simp only at h
+        injection h with h3 _
+        subst h3
+        simp [ref_evalList_length n es env rs1 vs2 rs2 h2]
+      | err _ => rw [h2] at h; cases h
+      | timeout => rw [h2] at h; cases h
+      | brk _ _ => rw [h2] at h; cases h
+      | cont _ _ => rw [h2] at h; cases h
+    | err _ => rw [h1] at h; cases h
+    | timeout => rw [h1] at h; cases h
+    | brk _ _ => rw [h1] at h; cases h
+    | cont _ _ => rw [h1] at h; cases h
+
+/-- A run of `popStackPutEnv` instructions over matching values on the data stack is
+`defineAll` in the current frame. -/
+theorem vm_defineAll : ∀ (ps : List (String × Val)) (s : St) (rs : Ref.St) (fr : Nat) (P Q : List Instr)
+    (D : List (Option Val)),
+    Seg s P (ps.map (fun p => Instr.popStackPutEnv p.1)) Q → s.data = ps.map (fun p => some p.2) ++ D → Rel s rs fr →
+    match defineAll rs fr ps with
+    | some rs' => ∃ s', Reach ps.length 1 s s' ∧ fnOf s' s'.curfunc = fnOf s s.curfunc
+        ∧ s'.pc = s.pc + (ps.length : Int) ∧ s'.data = D ∧ Rel s' rs' fr ∧ FramesExt rs rs'
+    | none => Fails ps.length s rs.trace
+  | [], s, rs, fr, P, Q, D, _, hd, hrel => by
+    simp only [defineAll]
+    exact ⟨s, Reach.refl s |>.mono (Nat.le_refl _) (by simp), rfl, by simp, by simpa using hd, hrel, FramesExt.refl rs⟩
+  | (x, v) :: ps, s, rs, fr, P, Q, D, hseg, hd, hrel => by
+    simp only [List.map_cons] at hseg hd
+    have a1 : At s P (.popStackPutEnv x) (ps.map (fun p => Instr.popStackPutEnv p.1) ++ Q) := hseg.head
+    have hp := psp_step a1 hd hrel
+    simp only [defineAll]
+    cases hdef : Ref.define rs fr x v with
+    | none =>
+      rw [hdef] at hp
+      exact Fails.mono hp (by simp)
+    | some rs1 =>
+      rw [hdef] at hp
+      obtain ⟨r1, rel1, ext1⟩ := hp
+      simp only
+      have hseg1 : Seg ((s.jmp (s.pc + 1) (ps.map (fun p => some p.2) ++ D)).bind fr x v) (P ++ [.popStackPutEnv x])
+          (ps.map (fun p => Instr.popStackPutEnv p.1)) Q :=
+        hseg.move (s' := (s.jmp (s.pc + 1) (ps.map (fun p => some p.2) ++ D)).bind fr x v) rfl (by simp)
+          (by show s.pc + 1 = _; rw [hseg.pc]; simp)
+      have ih := vm_defineAll ps _ rs1 fr _ Q D hseg1 rfl rel1
+      cases hda : defineAll rs1 fr ps with
+      | none =>
+        rw [hda] at ih
+        rw [ref_define_trace hdef] at ih
+        exact (Fails.of_reach r1 ih).mono (by simp; omega)
+      | some rs' =>
+        rw [hda] at ih
+        obtain ⟨s', r2, hfn, hpc, hdata, rel', ext'⟩ := ih
+        refine ⟨s', (r1.trans r2).mono (by simp; omega) (by simp), hfn, ?_, hdata, rel', ext1.trans ext'⟩
+        rw [hpc]
+        show s.pc + 1 + (ps.length : Int) = s.pc + (((x, v) :: ps).length : Int)
+        simp only [List.length_cons]; push_cast; omega
+
 /-- list-length arithmetic -/
 macro "lenarith" : tactic =>
   `(tactic| (first | omega | (simp only [List.length_append, List.length_cons, List.length_nil]; done)
@@ -582,8 +693,111 @@ macro "lenarith" : tactic =>
 
 /-! ## The four inductive steps -/
 
+/-- `let` with pairwise distinct names: the initialisers in the fresh scope, the bindings
+(popped in reverse order), the body, `removeScope`. -/
+theorem vclaimE_letpar {n : Nat} (hB : VClaimB n) (hP : VClaimP n) {bs : List (String × Expr)} {body : List Expr}
+    (isFn : Nat → Bool) (c : Ctx) (gs : GS) (r : (List Instr × Bool) × GS)
+    (hc : (compile isFn c (.let_ false bs body)).run gs = .ok r)
+    (s : St) (rs : Ref.St) (env : Nat) (pre post : List Instr) (hrel : Rel s rs env) (hseg : Seg s pre r.1.1 post)
+    (hnd : (bs.map (·.1)).Nodup) (hbody : body ≠ []) (hbs : FvBinds bs = true) (hbl : FvList body = true) :
+    Sim r.1.1 s rs env (Ref.eval (n + 1) (.let_ false bs body) env rs) := by
+  rw [compile] at hc
+  simp only [g_bind_ok, g_pure_ok] at hc
+  obtain ⟨ra, gs1, ha, rb, gs2, hb, rfl⟩ := hc
+  have hcode : ([Instr.addScope] ++ ra.1 ++ (if False then [] else (List.map (fun p => Instr.popStackPutEnv p.fst) bs).reverse)
+      ++ rb.1 ++ [Instr.removeScope])
+      = [Instr.addScope] ++ (ra.1 ++ (bs.map (fun p => Instr.popStackPutEnv p.1)).reverse ++ rb.1) ++ [Instr.removeScope] := by
+    simp
+  simp only [Bool.false_eq_true, hcode] at hseg ⊢
+  rw [Ref.eval]
+  show Sim _ s rs env (if false = true then _ else
+      (match Ref.evalList n (bs.map (·.2)) rs.frames.length (Ref.newFrame rs env).2 with
+       | .ok vs s => (match Ref.bindAll s rs.frames.length (bs.map (·.1)) vs with
+          | some s => Ref.evalBegin n body rs.frames.length s
+          | none => .err s)
+       | .err s => .err s | .brk l s => .brk l s | .cont l s => .cont l s | .timeout => .timeout))
+  rw [if_neg (by decide)]
+  refine Sim.scoped hseg ?_
+  have hseg1 := hseg.inner
+  have hL := hP bs hbs isFn _ gs (ra, gs1) ha _ _ _ _ _ hrel.pushScope
+    (hseg1.refocus (c' := ra.1)
+      (post' := (bs.map (fun p => Instr.popStackPutEnv p.1)).reverse ++ rb.1 ++ ([.removeScope] ++ post)) (by simp))
+  cases h1 : Ref.evalList n (bs.map (·.2)) rs.frames.length (Ref.newFrame rs env).2 with
+  | ok vs rs2 =>
+    rw [h1] at hL
+    obtain ⟨s2, r2, hfn2, hpc2, hdata2, rel2, ext2⟩ := hL
+    simp only
+    have hlen : vs.length = bs.length := by
+      have := ref_evalList_length _ _ _ _ _ _ h1
+      simpa using this
+    -- the pairs in the order the VM binds them
+    have hmapI : ((bs.map (·.1)).zip vs).reverse.map (fun p => Instr.popStackPutEnv p.1)
+        = (bs.map (fun p => Instr.popStackPutEnv p.1)).reverse := by
+      rw [List.map_reverse]
+      congr 1
+      have : ((bs.map (·.1)).zip vs).map (fun p => Instr.popStackPutEnv p.1)
+          = (((bs.map (·.1)).zip vs).map (·.1)).map Instr.popStackPutEnv := by rw [List.map_map]; rfl
+      rw [this, List.map_fst_zip (by simp [hlen]), List.map_map]; rfl
+    have hmapD : ((bs.map (·.1)).zip vs).reverse.map (fun p => some p.2) = vs.reverse.map some := by
+      have : ((bs.map (·.1)).zip vs).map (fun p => some p.2)
+          = (((bs.map (·.1)).zip vs).map (·.2)).map some := by rw [List.map_map]; rfl
+      rw [List.map_reverse, List.map_reverse, this, List.map_snd_zip (by simp [hlen])]
+    have hndz : (((bs.map (·.1)).zip vs).map (·.1)).Nodup := by
+      rw [List.map_fst_zip (by simp [hlen])]; exact hnd
+    have hsegB : Seg s2 (pre ++ [Instr.addScope] ++ ra.1)
+        (((bs.map (·.1)).zip vs).reverse.map (fun p => Instr.popStackPutEnv p.1)) (rb.1 ++ ([.removeScope] ++ post)) := by
+      rw [hmapI]
+      exact hseg1.move hfn2 (by simp) (by rw [hpc2, hseg1.pc]; simp; omega)
+    have hvm := vm_defineAll ((bs.map (·.1)).zip vs).reverse s2 rs2 rs.frames.length _ _ s.pushScope.data hsegB
+      (by rw [hmapD]; exact hdata2) rel2
+    have hlt2 := rel2.chain.lt
+    obtain ⟨fr0, hfr0⟩ : ∃ fr0, rs2.frames[rs.frames.length]? = some fr0 := ⟨rs2.frames[rs.frames.length], by simp [hlt2]⟩
+    have hrev := defineAll_reverse rs2 rs.frames.length fr0 hfr0 ((bs.map (·.1)).zip vs) hndz
+    rw [bindAll_eq_defineAll]
+    cases hfwd : defineAll rs2 rs.frames.length ((bs.map (·.1)).zip vs) with
+    | some a =>
+      cases hbwd : defineAll rs2 rs.frames.length ((bs.map (·.1)).zip vs).reverse with
+      | some b =>
+        rw [hfwd, hbwd] at hrev
+        rw [hbwd] at hvm
+        obtain ⟨va, vb, hva, hvb, hlook⟩ := hrev
+        obtain ⟨s3, r3, hfn3, hpc3, hdata3, rel3, ext3⟩ := hvm
+        simp only
+        rw [hvb] at rel3 ext3
+        have rel3a : Rel s3 a rs.frames.length := by rw [hva]; exact rel3.withVars_congr hfr0 hlook
+        have ext3a : FramesExt rs2 a := by rw [hva]; exact ext3.withVars_congr
+        have m3 : Moved (ra.1.length + (bs.map (fun p => Instr.popStackPutEnv p.1)).reverse.length) s.pushScope s3 :=
+          ⟨hfn3.trans hfn2, by
+            rw [hpc3, hpc2]; simp only [List.length_reverse, List.length_map, List.length_zip, hlen, Nat.min_self]
+            push_cast; omega, hdata3⟩
+        have ihb := hB body hbody hbl isFn _ gs1 (rb, gs2) hb s3 a _ _ _ rel3a
+          (hseg1.moved m3 (c₁ := ra.1 ++ (bs.map (fun p => Instr.popStackPutEnv p.1)).reverse) (c₂ := rb.1)
+            (post' := [.removeScope] ++ post) (by simp) (by simp))
+        refine Sim.seq (r2.trans r3) m3 (ext2.trans ext3a) ihb ?_ ?_
+        · simp only [List.length_append, List.length_reverse, List.length_map, List.length_zip, hlen, Nat.min_self]
+          omega
+        · simp only [List.length_append, List.length_reverse, List.length_map]
+      | none =>
+        rw [hfwd, hbwd] at hrev
+        exact hrev.elim
+    | none =>
+      cases hbwd : defineAll rs2 rs.frames.length ((bs.map (·.1)).zip vs).reverse with
+      | some b =>
+        rw [hfwd, hbwd] at hrev
+        exact hrev.elim
+      | none =>
+        rw [hbwd] at hvm
+        simp only
+        refine (Fails.of_reach r2 hvm).mono ?_
+        simp only [List.length_append, List.length_reverse, List.length_map, List.length_zip, hlen, Nat.min_self]
+        omega
+  | err rs2 => rw [h1] at hL; exact Fails.mono hL (by lenarith)
+  | timeout => trivial
+  | brk l rs2 => rw [h1] at hL; exact hL.elim
+  | cont l rs2 => rw [h1] at hL; exact hL.elim
+
 theorem vclaimE_succ {n : Nat} (hE : VClaimE n) (hB : VClaimB n) (hC : VClaimC n) (hS : VClaimS n)
-    (hN : VClaimN n) (hL : VClaimL n) : VClaimE (n + 1) := by
+    (hN : VClaimN n) (hL : VClaimL n) (hP : VClaimP n) : VClaimE (n + 1) := by
   intro e he isFn c gs r hc s rs env pre post hrel hseg
   cases e with
   | int x =>
@@ -680,7 +894,9 @@ theorem vclaimE_succ {n : Nat} (hE : VClaimE n) (hB : VClaimB n) (hC : VClaimC n
     rw [Fv] at he
     simp only [Bool.and_eq_true, Bool.not_eq_true', List.isEmpty_eq_false_iff] at he
     obtain ⟨⟨⟨hseq, hbody⟩, hbs⟩, hbl⟩ := he
-    subst hseq
+    cases seq
+    · exact vclaimE_letpar hB hP isFn c gs r hc s rs env pre post hrel hseg
+        (by simpa using hseq) hbody hbs hbl
     rw [compile] at hc
     simp only [g_bind_ok, g_pure_ok] at hc
     obtain ⟨ra, gs1, ha, rb, gs2, hb, rfl⟩ := hc
@@ -796,6 +1012,49 @@ theorem vclaimL_succ {n : Nat} (hE : VClaimE n) (hL : VClaimL n) : VClaimL (n + 
         | timeout => trivial
         | brk l rs3 => rw [h2] at ih2; exact ih2.elim
         | cont l rs3 => rw [h2] at ih2; exact ih2.elim
+    | err rs1 => rw [h1] at ih; exact Fails.mono ih (by lenarith)
+    | timeout => trivial
+    | brk l rs1 => rw [h1] at ih; exact ih.elim
+    | cont l rs1 => rw [h1] at ih; exact ih.elim
+
+theorem vclaimP_succ {n : Nat} (hE : VClaimE n) (hP : VClaimP n) : VClaimP (n + 1) := by
+  intro bs hbs isFn c gs r hc s rs env pre post hrel hseg
+  match bs with
+  | [] =>
+    rw [compileBinds] at hc; simp only [g_pure_ok] at hc; subst hc
+    simp only [List.map_nil]
+    rw [Ref.evalList]
+    · exact ⟨s, Reach.refl s |>.mono (Nat.le_refl _) (by simp), rfl, by simp, by simp, hrel, FramesExt.refl rs⟩
+    · omega
+  | (x, e) :: bs' =>
+    rw [FvBinds] at hbs
+    simp only [Bool.and_eq_true] at hbs
+    rw [compileBinds] at hc
+    simp only [g_bind_ok, g_pure_ok] at hc
+    obtain ⟨ra, gs1, ha, rb, gs2, hb, rfl⟩ := hc
+    have hcode : (ra.1 ++ (if False then [Instr.popStackPutEnv x] else []) ++ rb.1) = ra.1 ++ rb.1 := by simp
+    simp only [Bool.false_eq_true, hcode] at hseg ⊢
+    simp only [List.map_cons]
+    rw [Ref.evalList]
+    have ih := hE e hbs.1 isFn _ gs (ra, gs1) ha s rs env pre (rb.1 ++ post) hrel (hseg.refocus (by simp))
+    cases h1 : Ref.eval n e env rs with
+    | ok v1 rs1 =>
+      rw [h1] at ih
+      obtain ⟨s1, r1, l1, rel1, ext1⟩ := ih
+      simp only
+      have ih2 := hP bs' hbs.2 isFn _ gs1 (rb, gs2) hb s1 rs1 env (pre ++ ra.1) post rel1
+        (hseg.move l1.fn (by simp) (by rw [l1.pc, hseg.pc]; simp))
+      cases h2 : Ref.evalList n (bs'.map (·.2)) env rs1 with
+      | ok vs rs2 =>
+        rw [h2] at ih2
+        obtain ⟨s2, r2, hfn2, hpc2, hdata2, rel2, ext2⟩ := ih2
+        refine ⟨s2, (r1.trans r2).mono (by lenarith) (by simp), hfn2.trans l1.fn, ?_, ?_, rel2, ext1.trans ext2⟩
+        · rw [hpc2, l1.pc]; simp only [List.length_append]; push_cast; omega
+        · rw [hdata2, l1.data]; simp
+      | err rs2 => rw [h2] at ih2; exact (Fails.of_reach r1 ih2).mono (by lenarith)
+      | timeout => trivial
+      | brk l rs2 => rw [h2] at ih2; exact ih2.elim
+      | cont l rs2 => rw [h2] at ih2; exact ih2.elim
     | err rs1 => rw [h1] at ih; exact Fails.mono ih (by lenarith)
     | timeout => trivial
     | brk l rs1 => rw [h1] at ih; exact ih.elim
@@ -939,8 +1198,8 @@ theorem vclaimS_succ {n : Nat} (hE : VClaimE n) (hS : VClaimS n) : VClaimS (n + 
       · intro hh; cases hh
     · intro hh; cases hh
 
-theorem vclaims_zero : VClaimE 0 ∧ VClaimB 0 ∧ VClaimC 0 ∧ VClaimS 0 ∧ VClaimN 0 ∧ VClaimL 0 := by
-  refine ⟨?_, ?_, ?_, ?_, ?_, ?_⟩
+theorem vclaims_zero : VClaimE 0 ∧ VClaimB 0 ∧ VClaimC 0 ∧ VClaimS 0 ∧ VClaimN 0 ∧ VClaimL 0 ∧ VClaimP 0 := by
+  refine ⟨?_, ?_, ?_, ?_, ?_, ?_, ?_⟩
   · intro e _ isFn c gs r _ s rs env pre post _ _
     rw [Ref.eval]; trivial
   · intro es _ _ isFn c gs r _ s rs env pre post _ _
@@ -953,13 +1212,15 @@ theorem vclaims_zero : VClaimE 0 ∧ VClaimB 0 ∧ VClaimC 0 ∧ VClaimS 0 ∧ V
     rw [Ref.evalBegin]; trivial
   · intro bs _ isFn c gs r _ s rs env pre post _ _
     rw [Ref.evalLetSeq]; trivial
+  · intro bs _ isFn c gs r _ s rs env pre post _ _
+    rw [Ref.evalList]; trivial
 
-theorem vclaims : ∀ n, VClaimE n ∧ VClaimB n ∧ VClaimC n ∧ VClaimS n ∧ VClaimN n ∧ VClaimL n
+theorem vclaims : ∀ n, VClaimE n ∧ VClaimB n ∧ VClaimC n ∧ VClaimS n ∧ VClaimN n ∧ VClaimL n ∧ VClaimP n
   | 0 => vclaims_zero
   | n + 1 => by
-    obtain ⟨hE, hB, hC, hS, hN, hL⟩ := vclaims n
-    exact ⟨vclaimE_succ hE hB hC hS hN hL, vclaimB_succ hE hB, vclaimC_succ hE hC, vclaimS_succ hE hS,
-      vclaimN_succ hE hN, vclaimL_succ hE hL⟩
+    obtain ⟨hE, hB, hC, hS, hN, hL, hP⟩ := vclaims n
+    exact ⟨vclaimE_succ hE hB hC hS hN hL hP, vclaimB_succ hE hB, vclaimC_succ hE hC, vclaimS_succ hE hS,
+      vclaimN_succ hE hN, vclaimL_succ hE hL, vclaimP_succ hE hP⟩
 
 /-- **Segment lemma for Fv** (literals, symbols, `def`, `set`, `begin`, `cond`, `and`, `or`).
 In related states (`Rel s rs env`: same bindings scope by scope, linear stack = static chain of
